@@ -97,14 +97,40 @@ def run(chk):
         plans = [(300, 16, 100, chk.seed), (30, 1000, 600, chk.seed + 1), (10, 5000, 1500, chk.seed + 2)]
     for (runs, maxm, length, seed) in plans:
         record_and_validate(chk, runs, maxm, length, seed)
+    long_life(chk)
     chk.cov["exhaustive"] = True
     chk.cov["explanation"] = "exhaustive for the listed (M,V) graphs; larger M sampled by recorded traces"
     chk.cov["graphs"] = ["M=%d,V=%d" % g for g in graphs(chk.tier)]
 
 
+def long_life(chk):
+    """one tracker through 140000 (400000) cycles of (one or two updates, reset), compared with a new one at check points"""
+    out = os.path.join(chk.wd, "longlife.json")
+    cycles = 140000 if chk.tier == "quick" else 400000
+    harness("c15", ["longlife", "out=" + out, "seed=%d" % chk.seed, "cycles=%d" % cycles], timeout=1500)
+    n = 0
+    for c in json.load(open(out))["cases"]:
+        chk.add("evaluations", c["cycles"])
+        n += c["checks"]
+        if c.get("panic"):
+            chk.violation(dict(kind="long-life", what="panic", m=c["m"]), dict(kind="long-life", case=c, seed=chk.seed))
+        elif c["bad"]:
+            chk.violation(dict(kind="long-life", what="differs-from-new", m=c["m"]), dict(kind="long-life", case=c, seed=chk.seed))
+    log("[C15] long life: one tracker per size through %d (updates, reset) cycles, %d comparisons with a new tracker" % (cycles, n))
+
+
 def replay(chk, path):
     sc = json.load(open(path))["scenario"]
     build_harness("c15")
+    if sc["kind"] == "long-life":
+        out = os.path.join(chk.wd, "longlife_replay.json")
+        harness("c15", ["longlife", "out=" + out, "seed=%d" % sc["seed"], "cycles=%d" % sc["case"]["cycles"]], timeout=1500)
+        bad = [c for c in json.load(open(out))["cases"] if c["m"] == sc["case"]["m"] and (c["bad"] or c.get("panic"))]
+        for c in bad:
+            log(json.dumps(c)[:1200])
+        if bad:
+            log("VIOLATION property=C15 replay=%s" % path)
+        return 1 if bad else 0
     if sc["kind"] == "transition":
         tf = os.path.join(chk.wd, "one.ndjson")
         write_ndjson(tf, [sc["rec"]])
